@@ -87,12 +87,12 @@ def data_value(kind: str, small: bool = False):
                 st.floats(1e-2 if small else 1e-3, hi, allow_nan=False)]
         if not small:  # magnitudes 1e-6 .. 1e+6
             base += [st.floats(1e-2, hi, allow_nan=False), st.floats(1e-6, 1e-3, allow_nan=False),
-                     st.floats(1e3, 1e6, allow_nan=False)]
+                     st.floats(1e3, 1e6, allow_nan=False), st.floats(1e-12, 1e-6, allow_nan=False)]
         return st.one_of(*base)
     hi = 10.0 if small else 1e3
     base = [st.just(0.0), st.integers(-6, 6).map(float), sfloats(1e-3, hi)]
     if not small:
-        base += [sfloats(1e-3, hi), sfloats(1e-6, 1e-3), sfloats(1e3, 1e6)]
+        base += [sfloats(1e-3, hi), sfloats(1e-6, 1e-3), sfloats(1e3, 1e6), sfloats(1e-12, 1e-6)]
     return st.one_of(*base)
 
 
@@ -114,10 +114,10 @@ def model_value(name: str):
     lb = LOSSES[name]["lb"]
     if lb == 0.0:
         return st.one_of(st.just(0.0), st.floats(1e-8, 1e-3), st.floats(1e-3, 1.0), st.floats(1.0, 1e3), st.floats(1e-3, 1.0),
-                         st.floats(1.0, 1e3), st.floats(1e3, 1e6))
+                         st.floats(1.0, 1e3), st.floats(1e3, 1e6), st.floats(1e-15, 1e-8))
     if name in ("bernoulli_logit", "poisson_log"):
         return st.one_of(st.just(0.0), sfloats(1e-6, 5), sfloats(1e-3, 30))
-    return st.one_of(st.just(0.0), sfloats(1e-6, 5), sfloats(1e-3, 1e3), sfloats(1e-3, 1e3), sfloats(1e3, 1e6))
+    return st.one_of(st.just(0.0), sfloats(1e-6, 5), sfloats(1e-3, 1e3), sfloats(1e-3, 1e3), sfloats(1e3, 1e6), sfloats(1e-12, 1e-6))
 
 
 # --------------------------------------------------------------------------
@@ -239,15 +239,91 @@ def factor_value(name: str):
     return st.one_of(st.just(0.0), st.integers(-2, 2).map(float), sfloats(0.01, 2.0), sfloats(0.01, 2.0))
 
 
+# next to 0 and below every absolute tolerance.  One magnitude class per case, so that no product of entries is a
+# subnormal number (whose rounding would depend on the order of the factors): 1e-290 / 1e-200 - the product of two
+# of them underflows to exactly 0 in every order, times ordinary entries (>= 0.01 each, at most 4 of them) it stays
+# normal; or 1e-12 - all products stay normal
+TINY_CLASSES = [[1e-290, 1e-200], [1e-12]]
+FACTOR_CLASSES = ["generic"] * 5 + ["tiny", "tiny", "identity", "near-identity", "near-identity"]
+
+
 @st.composite
-def factors_for(draw, name, shape, rank):
+def factors_for(draw, name, shape, rank, classes=FACTOR_CLASSES):
+    """factor matrices in one of the classes: generic (exact zeros included), tiny (some entries 1e-300 / 1e-200 /
+    1e-12 - such entries are NOT zeros), identity (every factor is the leading block of an identity matrix: exactly
+    orthogonal unit columns), near-identity (identity plus a perturbation of 1e-9 / 1e-6 / 1e-4 in every entry)"""
     fv = factor_value(name)
+    cls = draw(st.sampled_from(list(classes)))
+    if cls == "tiny":
+        tiny = draw(st.sampled_from(TINY_CLASSES))
+        tv = st.sampled_from(tiny) if LOSSES[name]["lb"] == 0.0 else st.sampled_from(tiny + [-t for t in tiny])
+        fv = st.one_of(tv, fv, fv, fv)
+    if cls in ("identity", "near-identity"):
+        eps = 0.0 if cls == "identity" else draw(st.sampled_from([1e-9, 1e-6, 1e-4]))
+        noise = st.floats(0.01, 1.0) if LOSSES[name]["lb"] == 0.0 else sfloats(0.01, 1.0)  # (no subnormal noise)
+        out = []
+        for n in shape:
+            E = [[(1.0 if i == j else 0.0) + (eps * draw(noise) if eps else 0.0) for j in range(rank)] for i in range(n)]
+            out.append(E)
+        return out
     return [draw(st.lists(st.lists(fv, min_size=rank, max_size=rank), min_size=n, max_size=n)) for n in shape]
+
+
+def factor_class(case) -> str:
+    """label: the structure class of a case's factor matrices, read off the values"""
+    fm = [np.array(f, dtype=float).reshape(n, case["rank"]) for f, n in zip(case["factors"], case["shape"])]
+    if all(np.array_equal(f, np.eye(*f.shape)) for f in fm):
+        return "factors-identity"
+    if all(np.all(np.abs(f - np.eye(*f.shape)) <= 1e-3) for f in fm):
+        return "factors-near-identity"
+    if any(np.any((f != 0) & (np.abs(f) < 1e-10)) for f in fm):
+        return "factors-tiny-entries"
+    return "factors-generic"
+
+
+@st.composite
+def column_scaling(draw, shape, rank):
+    """extreme but exactly balanced dynamic range: per component, the column of one mode is multiplied by 2**E and the
+    column of another mode by 2**-E (E = 60, 200, 480: 1e18, 1e60, 1e144).  Powers of two: the model values and every
+    leave-one-out product are changed by exact factors only, and no partial product leaves the normal range."""
+    if len(shape) < 2 or not draw(st.sampled_from([False, False, False, True])):
+        return None
+    out = []
+    for _ in range(rank):
+        i = draw(st.integers(0, len(shape) - 1))
+        j = draw(st.integers(0, len(shape) - 2))
+        j = j if j < i else j + 1
+        out.append([i, j, draw(st.sampled_from([0, 60, 200, 480]))])
+    return out
+
+
+def scaled_direction(V: np.ndarray, A: Sequence[np.ndarray], k: int) -> np.ndarray:
+    """a direction for factor k that moves the model by O(|V|): every column of V is divided by the power of two
+    nearest to the product of the largest magnitudes of the same column in the other factors, when that product lies
+    outside [2**-30, 2**30] (otherwise the column is left as it is)"""
+    V = np.array(V, dtype=float, copy=True)
+    for c in range(V.shape[1]):
+        m = 1.0
+        for j, a in enumerate(A):
+            if j != k:
+                m *= float(np.max(np.abs(a[:, c]))) if a.shape[0] else 0.0
+        if m > 0 and np.isfinite(m):
+            e = int(np.round(np.log2(m)))
+            if abs(e) > 30:
+                V[:, c] = np.ldexp(V[:, c], -e)
+    return V
 
 
 def build_factors(case) -> List[np.ndarray]:
     r = case["rank"]
-    return [np.array(f, dtype=float).reshape(n, r) for f, n in zip(case["factors"], case["shape"])]
+    fm = [np.array(f, dtype=float).reshape(n, r) for f, n in zip(case["factors"], case["shape"])]
+    if case.get("mscale"):
+        for c, (i, j, e) in enumerate(case["mscale"]):
+            # (tiny entries stay inside the normal range: they are left out of the down-scaling)
+            if e and not any(np.any((f[:, c] != 0) & (np.abs(f[:, c]) < 1e-100)) for f in fm):
+                fm[i][:, c] = np.ldexp(fm[i][:, c], e)
+                fm[j][:, c] = np.ldexp(fm[j][:, c], -e)
+    return fm
 
 
 MODEL_PROV = ["ctor", "ctor", "ctor", "copy", "absorbed", "permuted", "weighted", "normalized", "arranged"]
@@ -261,12 +337,16 @@ def model_state(draw, name, shape, rank, allow_weighted=True):
     permuted, and, where weighted models are admissible, explicit weights / normalize() / arrange()"""
     prov = draw(st.sampled_from(MODEL_PROV if allow_weighted else UNIT_PROV))
     out = dict(mprov=prov, mperm=list(draw(st.permutations(range(len(shape))))), mmode=draw(st.integers(0, len(shape) - 1)))
+    out["mscale"] = draw(column_scaling(shape, rank))
     if prov in ("weighted", "absorbed"):
         if LOSSES[name]["lb"] == 0.0:
             wv = st.one_of(st.sampled_from([0.5, 2.0, 1.0]), st.floats(0.1, 4.0))
         else:
             wv = st.one_of(st.sampled_from([0.5, 2.0, 1.0, -1.0]), sfloats(0.1, 4.0))
         out["mweights"] = draw(st.lists(wv, min_size=rank, max_size=rank))
+        if draw(st.sampled_from([False, False, False, True])):  # weights that are almost, but not, all ones
+            d = draw(st.sampled_from([1e-9, 1e-7, 1e-5]))
+            out["mweights"] = [1.0 + d * draw(st.sampled_from([-1.0, 0.0, 0.5, 1.0])) for _ in range(rank)]
     return out
 
 
@@ -296,6 +376,9 @@ def build_model(case) -> ttb.ktensor:
         else:
             K = plain
     except Exception:  # noqa: BLE001  (these routes are judged by other properties)
+        K = plain
+    if prov in ("absorbed", "weighted", "normalized", "arranged") and any(np.any((f != 0) & (np.abs(f) < 1e-150)) for f in fm):
+        # (the square of such an entry underflows: column 2-norms, hence normalize(), are not meaningful for it)
         K = plain
     ok = (isinstance(K, ttb.ktensor) and tuple(K.shape) == tuple(case["shape"]) and K.ncomponents == case["rank"]
           and all(np.all(np.isfinite(f)) for f in K.factor_matrices) and bool(np.all(np.isfinite(K.weights))))
@@ -351,11 +434,24 @@ def mttkrp_ref(Y: np.ndarray, factors: Sequence[np.ndarray], k: int) -> np.ndarr
 
 @st.composite
 def weights_for(draw, ncells):
-    kind = draw(st.sampled_from(["none", "mask", "mask", "positive"]))
+    kind = draw(st.sampled_from(["none", "mask", "mask", "positive", "sparse-mask", "sparse-positive", "near-one"]))
     if kind == "none":
         return kind, None
     if kind == "mask":
         w = draw(st.lists(st.sampled_from([0.0, 1.0, 1.0]), min_size=ncells, max_size=ncells))
+    elif kind == "near-one":
+        # almost, but not, unit weights: 1 + d with |d| = 1e-9 .. 1e-5 (some entries exactly 1)
+        d = draw(st.sampled_from([1e-9, 1e-7, 1e-5]))
+        w = [1.0 + d * draw(st.sampled_from([-1.0, 0.0, 0.5, 1.0])) for _ in range(ncells)]
+    elif kind.startswith("sparse"):
+        # mostly missing: 0, 1, 2, ... observed entries, at most a quarter of the cells
+        k = draw(st.one_of(st.sampled_from([0, 1, 2, 3]), st.integers(0, max(0, ncells // 4))))
+        k = min(k, ncells)
+        pos = draw(st.lists(st.integers(0, ncells - 1), min_size=k, max_size=k, unique=True))
+        wv = st.just(1.0) if kind == "sparse-mask" else st.floats(0.1, 5.0)
+        w = [0.0] * ncells
+        for i in pos:
+            w[i] = draw(wv)
     else:
         w = draw(st.lists(st.one_of(st.just(0.0), st.floats(0.1, 5.0), st.floats(0.1, 5.0)),
                           min_size=ncells, max_size=ncells))
@@ -427,7 +523,7 @@ def problem(draw, tier, losses=LOSS_NAMES, holders=("dense", "sparse"), with_wei
     if with_weights:
         case["wkind"], case["weights"] = draw(weights_for(ncells))
         case["worder"] = draw(st.sampled_from(["F", "C"]))
-        case["wdtype"] = draw(st.sampled_from(WEIGHT_DTYPES)) if case["wkind"] == "mask" else "float64"
+        case["wdtype"] = draw(st.sampled_from(WEIGHT_DTYPES)) if case["wkind"] in ("mask", "sparse-mask") else "float64"
     else:
         case["wkind"], case["weights"] = "none", None
     case["ddtype"] = draw(st.sampled_from(data_dtypes(name)))
@@ -490,7 +586,7 @@ def weight_array(case) -> Optional[np.ndarray]:
     if case.get("weights") is None:
         return None
     w = gen.arr_F(tuple(case["shape"]), case["weights"])
-    w = typed(w, case.get("wdtype")) if case.get("wkind") == "mask" else w
+    w = typed(w, case.get("wdtype")) if case.get("wkind") in ("mask", "sparse-mask") else w
     return np.ascontiguousarray(w) if case.get("worder", "C") == "C" else np.asfortranarray(w)
 
 
@@ -536,3 +632,102 @@ def worst(got, want, tol) -> str:
         return "empty"
     i = np.unravel_index(int(np.nanargmax(np.where(np.isnan(d), np.inf, d))), d.shape) if d.ndim else ()
     return f"at {tuple(int(v) for v in i)}: got {got[i]!r} want {want[i]!r} tol {np.broadcast_to(tol, got.shape)[i]!r}"
+
+
+# --------------------------------------------------------------------------
+# a few large cases per run: described by seeds, expanded deterministically into an ordinary case
+# --------------------------------------------------------------------------
+
+LARGE_SHAPES = [[40, 50, 30], [250, 240], [16, 15, 25, 10], [3, 20000], [1, 300, 200]]  # 60000 cells each
+
+
+@st.composite
+def large_problem(draw, holders=("sparse", "sparse", "dense")):
+    """compact description of a problem with 60000 cells and 1e4..3e4 non-zero data entries"""
+    name = draw(st.sampled_from([n for n in LOSS_NAMES if n != "huber"]))
+    c = dict(loss=name, param=draw(param_strategy(name)), shape=draw(st.sampled_from(LARGE_SHAPES)), rank=draw(st.integers(1, 3)),
+             large=True, seed=draw(st.integers(0, 2**31 - 1)), fill=draw(st.sampled_from([0.17, 0.2, 0.28, 0.34, 0.5])),
+             holder=draw(st.sampled_from(list(holders))), stored=draw(st.sampled_from(["sorted", "reverse", "random"])),
+             perm_seed=draw(st.integers(0, 2**31 - 1)), dprov=draw(st.sampled_from(["ctor", "ctor", "np-shape"])),
+             wkind=draw(st.sampled_from(["none", "sparse-mask", "sparse-mask", "sparse-positive", "mask", "positive"])),
+             wdensity=draw(st.sampled_from([0.0, 0.0005, 0.01, 0.1, 0.24])), worder=draw(st.sampled_from(["F", "C"])),
+             ddtype=draw(st.sampled_from(["float64", "float64", "int64", "uint8"])), mprov=draw(st.sampled_from(["ctor", "ctor", "copy", "permuted"])),
+             mmode=0)
+    c["mperm"] = list(draw(st.permutations(range(len(c["shape"])))))
+    c["wdtype"] = draw(st.sampled_from(WEIGHT_DTYPES)) if c["wkind"] in ("mask", "sparse-mask") else "float64"
+    if c["holder"] == "dense":
+        c["dprov"] = draw(st.sampled_from(["ctor", "c-order"]))
+    return c
+
+
+def _seeded_factor(rs, n, r, name):
+    f = rs.uniform(0.05, 2.0, size=(n, r))
+    if LOSSES[name]["lb"] != 0.0:
+        f = f * rs.choice([-1.0, 1.0], size=(n, r))
+    f[rs.uniform(size=(n, r)) < 0.2] = 0.0  # exact zeros are ordinary entries
+    return f
+
+
+def _seeded_values(rs, n, name):
+    kind = LOSSES[name]["data"]
+    if kind == "binary":
+        return np.ones(n)
+    if kind == "count":
+        return rs.randint(1, 7, size=n).astype(float)
+    v = rs.uniform(0.1, 3.0, size=n)
+    return v if kind == "nonneg" else v * rs.choice([-1.0, 1.0], size=n)
+
+
+def expand_large(case) -> dict:
+    """the ordinary case dict (factors / data / weights / directions as lists) a compact large case stands for"""
+    if not case.get("large"):
+        return case
+    rs = np.random.RandomState(case["seed"])
+    shape, r, name = case["shape"], case["rank"], case["loss"]
+    n = ref.prod(shape)
+    c = dict(case)
+    # (the model of a 60000-cell problem: entries scaled so that model values stay O(1))
+    c["factors"] = [_seeded_factor(rs, m, r, name).tolist() for m in shape]
+    c["dirs"] = [rs.uniform(-1.0, 1.0, size=(m, r)).tolist() for m in shape]
+    vals = _seeded_values(rs, n, name)
+    c["data"] = np.where(rs.uniform(size=n) < case["fill"], vals, 0.0).tolist()
+    if case["wkind"] == "none":
+        c["weights"] = None
+    else:
+        dens = case["wdensity"] if case["wkind"].startswith("sparse") else 0.67
+        w = (rs.uniform(size=n) < dens).astype(float)
+        if case["wkind"].endswith("positive"):
+            w = w * rs.uniform(0.1, 5.0, size=n)
+        c["weights"] = w.tolist()
+    return c
+
+
+@st.composite
+def large_samples(draw):
+    """compact description of a sample set of 1e4..3e4 samples (block edges included) of a large model"""
+    name = draw(st.sampled_from([n for n in LOSS_NAMES if n != "huber"]))
+    edges = [b + d for b in (10000, 16384) for d in (-1, 0, 1)]
+    return dict(loss=name, param=draw(param_strategy(name)), shape=draw(st.sampled_from(LARGE_SHAPES)), rank=draw(st.integers(1, 3)),
+                large=True, seed=draw(st.integers(0, 2**31 - 1)), ns=draw(st.one_of(st.sampled_from(edges), st.integers(10000, 30000))),
+                size="large", crng_kind=draw(st.sampled_from(["none", "empty", "prefix"])), crng_len=draw(st.integers(0, 10000)),
+                outputs=draw(st.sampled_from(["both", "both", "F", "G"])), lambda_check=draw(st.sampled_from(["default", True, False])),
+                mprov=draw(st.sampled_from(["ctor", "ctor", "copy", "permuted"])), mmode=0, unit_sweights=draw(st.booleans()),
+                vdtype=draw(st.sampled_from(DATA_DTYPES[:-1])), sdtype=draw(st.sampled_from(["int64", "int64", "int32", "uint32"])),
+                swdtype=draw(st.sampled_from(["float64", "float64", "int64"])), mperm_seed=draw(st.integers(0, 9999)))
+
+
+def expand_large_samples(case) -> dict:
+    if not case.get("large"):
+        return case
+    rs = np.random.RandomState(case["seed"])
+    shape, r, name, ns = case["shape"], case["rank"], case["loss"], case["ns"]
+    c = dict(case)
+    c["factors"] = [_seeded_factor(rs, m, r, name).tolist() for m in shape]
+    lin = rs.randint(0, ref.prod(shape), size=ns)  # with repeats
+    c["subs"] = np.array(np.unravel_index(lin, tuple(shape), order="F")).T.reshape(ns, len(shape)).tolist()
+    v = _seeded_values(rs, ns, name)
+    c["vals"] = np.where(rs.uniform(size=ns) < 0.5, v, 0.0).tolist()
+    c["sweights"] = ([1.0] * ns) if case["unit_sweights"] else np.round(rs.uniform(0.1, 50.0, size=ns), 3).tolist()
+    c["crng"] = None if case["crng_kind"] == "none" else ([] if case["crng_kind"] == "empty" else list(range(min(ns, case["crng_len"]))))
+    c["mperm"] = list(np.random.RandomState(case["mperm_seed"]).permutation(len(shape)))
+    return c
